@@ -153,9 +153,12 @@ def gen_case(seed):
             menu += [['gen', rr.pick(['cellA', 'cellB']), _state_for(rr, cellvars)]] * 2
         if swarm['div']:
             mode = 'explicit' if swarm['explicit'] and rr.chance(60) else 'copy'
-            menu += [['div', rr.below(4), mode, rr.pick(['cellA', 'cellB']),
-                      _state_for(rr, cellvars, 20) if rr.chance(40) else {},
-                      _state_for(rr, cellvars, 20) if rr.chance(40) else {}]] * 3
+            st1 = _state_for(rr, cellvars, 20) if rr.chance(40) else {}
+            st2 = _state_for(rr, cellvars, 20) if rr.chance(40) else {}
+            if 'd' in cellvars and rr.chance(30):
+                # an explicit dictionary-valued state for one daughter only
+                (st1 if rr.chance(50) else st2)['d'] = {'k%d' % rr.rint(1, 9): {'x': rr.rint(2, 9)}}
+            menu += [['div', rr.below(4), mode, rr.pick(['cellA', 'cellB']), st1, st2]] * 3
         if swarm['move']:
             src, dst = rr.pick([('agents', 'pool'), ('pool', 'agents')])
             if swarm['moveupdate'] and rr.chance(40):
@@ -748,6 +751,11 @@ def law(v, a, m, shares, explicit, cellvars, mother_vars):
         return None
     for i in (0, 1):
         w = exp[i] if exp[i] is not None else want[i]
+        if exp[i] is not None and isinstance(exp[i], dict) and isinstance(want[i], dict):
+            # a dictionary-valued explicit state may replace the share or be merged into it
+            from dst.wmodel import deep_merge_new
+            if values_equal(shares[i], exp[i]) or values_equal(shares[i], deep_merge_new(want[i], exp[i])):
+                continue
         if not values_equal(shares[i], w):
             if exp[i] is not None:
                 return ('explicit-state', 'daughter %d holds %r, explicit initial state says %r' % (i, shares[i], w))
